@@ -65,6 +65,10 @@ func c15rec(kind string, ss []string) Ev {
 		} else {
 			q = shell.Join(ss)
 		}
+		// hold the result across further calls: it must not be backed by reusable storage
+		scr := strings.Repeat("x y'z ", 1+len(q)/4)
+		_ = shell.Quote(scr)
+		_ = shell.Join([]string{scr, scr})
 		ev["q"] = bytesJ(q)
 		toks, ok := shell.Split(q)
 		ev["split"] = map[string]any{"toks": toksJ(toks), "ok": ok}
@@ -96,17 +100,38 @@ func runC15(c *Ctx) {
 		c.NewHist("tlc-join").Emit(c15rec("join", ss))
 	}
 	alpha := []byte("ab '\"\\\t\n$`*?[#~=%|&;<>(){}!^,.-_/:@+\x00\x7f\x80\xc3\xa9\xff\r\v\f\xc2\x85\xc2\xa0")
+	// multi-byte sequences some libraries treat as spaces or line breaks
+	uni := []string{"\u2028", "\u2029", "\u0085", "\u00a0", "\u3000", "\u2003", "\ufeff", "\u200b", "é", "€"}
+	// large results (beyond 64 KiB), held across further calls
+	for i := 0; i < c.Pick(2, 6); i++ {
+		rng := c.Rng("c15-big", i)
+		var sb strings.Builder
+		for sb.Len() < 66000+rng.Intn(6000) {
+			sb.WriteString([]string{"abcdefgh", "word ", "it's", "x\ty", "$HOME"}[rng.Intn(5)])
+		}
+		if i%2 == 0 {
+			c.NewHist("big-quote").Emit(c15rec("quote", []string{sb.String()}))
+		} else {
+			c.NewHist("big-join").Emit(c15rec("join", []string{sb.String()[:30000], "", sb.String()[30000:]}))
+		}
+	}
 	n := c.Pick(4000, 150000)
 	for i := 0; i < n; i++ {
 		rng := c.Rng("c15", i)
 		mk := func() string {
 			var sb strings.Builder
 			for k := rng.Intn(12); k > 0; k-- {
-				if rng.Intn(3) == 0 {
+				switch r := rng.Intn(10); {
+				case r < 3:
 					sb.WriteByte(byte(rng.Intn(256)))
-				} else {
+				case r < 4:
+					sb.WriteString(uni[rng.Intn(len(uni))])
+				default:
 					sb.WriteByte(alpha[rng.Intn(len(alpha))])
 				}
+			}
+			if rng.Intn(5) == 0 { // nothing that needs quoting around the multi-byte sequence
+				return []string{"a", "", "bc"}[rng.Intn(3)] + uni[rng.Intn(len(uni))] + []string{"a", "", "bc"}[rng.Intn(3)]
 			}
 			return sb.String()
 		}
@@ -129,6 +154,31 @@ func runC15(c *Ctx) {
 }
 
 // ---- C16 -----------------------------------------------------------------------
+
+// flakyEOF returns (0, io.EOF) once the first part is exhausted and, if asked
+// again, delivers more data: a Scanner must not resume after the end of input.
+type flakyEOF struct {
+	first, more []byte
+	eofs        int
+}
+
+func (f *flakyEOF) Read(p []byte) (int, error) {
+	if len(f.first) > 0 {
+		n := copy(p, f.first)
+		f.first = f.first[n:]
+		return n, nil
+	}
+	if f.eofs == 0 {
+		f.eofs++
+		return 0, io.EOF
+	}
+	if len(f.more) > 0 {
+		n := copy(p, f.more)
+		f.more = f.more[n:]
+		return n, nil
+	}
+	return 0, io.EOF
+}
 
 type fragReader struct {
 	data []byte
@@ -220,6 +270,8 @@ func c16rec(s string, rng *rand.Rand, cutsIn [][]int) Ev {
 			cs := cs
 			scans = append(scans, c16scan(func() io.Reader { return &fragReader{data: []byte(s), cuts: cs} }))
 		}
+		// a reader whose end of input is not sticky: tokens are those of the first part only
+		scans = append(scans, c16scan(func() io.Reader { return &flakyEOF{first: []byte(s), more: []byte(" zz 'q q' yy\n")} }))
 		ev["scans"] = scans
 		rests := []any{}
 		for k := 0; k <= len(toks)+1; k++ {
@@ -280,6 +332,20 @@ func runC16(c *Ctx) {
 			sb.WriteByte(alpha[rng.Intn(len(alpha))])
 		}
 		c.NewHist("random").Emit(c16rec(sb.String(), rng, nil))
+	}
+	// quoted runs longer than bufio's buffer
+	for i := 0; i < c.Pick(4, 30); i++ {
+		rng := c.Rng("c16-longquote", i)
+		q := []string{"'", "\""}[i%2]
+		var sb strings.Builder
+		sb.WriteString("pre ")
+		sb.WriteString(q)
+		for n := 4000 + rng.Intn(3000); n > 0; n-- {
+			sb.WriteByte("abc def\tg"[rng.Intn(9)])
+		}
+		sb.WriteString(q)
+		sb.WriteString(" post 'x y'\n")
+		c.NewHist("long-quoted").Emit(c16rec(sb.String(), rng, [][]int{}))
 	}
 	// long inputs: words straddling bufio's 4096-byte buffer
 	for i := 0; i < c.Pick(6, 60); i++ {
